@@ -20,7 +20,16 @@ generator and Python's `random` seeded differently and consumed differently betw
     operations, and sandwiched between two parameter probes inside fit;
   * the foreign sources actually hit by qucumber code (torch RNG entry points, numpy.random, random, time,
     os.environ, Path.home / cwd / expanduser — wrapped in this process, attributed by caller module) must be among the atoms the
-    translator predicted for that operation (closure over the generated call graph).
+    translator predicted for that operation (closure over the generated call graph);
+  * FAULT followed by ordinary operations: histories contain operations in which a user-supplied callable (metric, callback hook,
+    observable, logger / metadata function, optimizer / scheduler class) raises at a scripted event -- an ordinary exception or a
+    KeyboardInterrupt, caught by the harness -- or a public operation is given an invalid argument; the history carries on.  Within
+    one case nothing is reset: the second run and a short seeded probe run (executed before and after the history) inherit whatever
+    the first run left behind in the process, and must still be bit-identical;
+  * a snapshot of the process-wide settings (torch default dtype / device, thread counts, deterministic switches, matmul precision,
+    grad mode, flush-denormal, backend flags, numpy error state, warnings filters, environment, cwd, scalar module-level globals
+    and class attributes of the package) taken before / after every library call must be unchanged.  Statically the translator
+    reports a write to such a setting that is not restored on every path (try/finally, context manager) as a foreign source.
 """
 import os, sys, json, time, hashlib, subprocess, fcntl, random as pyrandom
 
@@ -30,7 +39,13 @@ if __name__ == "__main__":
 import common
 import translate_effects as TE
 
-RULE = ("fixed cases first (no time budget applies to them; the most discriminating at the very start): per state kind two histories -- "
+RULE = ("fixed cases first (no time budget applies to them; the most discriminating at the very start): per state kind one FAULT history -- "
+        "each kind of scripted fault (a user metric / callback hook / LambdaCallback function / observable (plain, composite, "
+        "in a System, in ObservableEvaluator) / logger_fn / msg_gen / ModelSaver metadata function / optimizer / scheduler class raises at "
+        "its n-th call, as an ordinary exception or as a KeyboardInterrupt, alternating with the state kind; invalid arguments of sample / "
+        "fit / metrics / rotations / statistics) is caught by the harness and followed by sample / statistics / System.statistics; the "
+        "process-wide settings are snapshotted around every library call, and nothing is reset between the two runs of a history and "
+        "the seeded probe run (sample, statistics, fit, sample) executed before and after it; then per state kind two histories -- "
         "(1) fit(time=5.0) with an explicit Timer on which every constructor option this harness does not know (None / numeric default) is "
         "switched on with the same number (likewise unknown options of fit), then sample / statistics / evaluate / save / gradients / metrics "
         "/ rotations and the hooks of MetricEvaluator, ObservableEvaluator, EarlyStopping, CallbackList+Timer called as read-only operations, "
@@ -41,7 +56,7 @@ RULE = ("fixed cases first (no time budget applies to them; the most discriminat
         "reseed-restarts-the-stream; then random histories (at least 6 whatever the clock says; the time budget only cuts this stream): "
         "state kind in {positive, complex, density} x nv 2..4 x nh 1..4 (x na 1..3), "
         "seed from every regime with set_random_seed flag combinations, then 4..12 operations drawn from a weighted grammar (reseed, "
-        "reinitialize, poke [NaN, +-inf, |w|>50, 1e6, +-1e300, 1e12], callback hooks as read-only operations, sample, observable sample/statistics/statistics_from_samples, System, fit [epochs 1..2, "
+        "reinitialize, poke [NaN, +-inf, |w|>50, 1e6, +-1e300, 1e12], scripted faults [as above, n-th call 1..3], callback hooks as read-only operations, sample, observable sample/statistics/statistics_from_samples, System, fit [epochs 1..2, "
         "batch sizes, k, lr, bases, SGD/Adam/momentum, scheduler, time in {False, True, numbers}, evaluator / ModelSaver / EarlyStopping / Logger "
         "/ Lambda callbacks], probability/psi/rho/normalization/RBM-level calls, fidelity/KL/NLL, rotations incl. explicit psi=/rho=, "
         "save/load/autoload, gradients, data loaders); each history is run twice with numpy / random / environment / wall clock perturbed "
@@ -64,6 +79,19 @@ ASSUMPTIONS = [
     "TRUST: the theorems of props/C14.v are about the generated effect graph; the semantic corollaries are conditional on bodies_ok "
     "(= soundness of the translator for the Python sources), which is trusted (conservative, fail closed) and only sampled by the "
     "dynamic part of this check",
+    "process-wide settings: the snapshot lists torch default dtype / device, thread counts, deterministic-algorithm switches, float32 "
+    "matmul precision, grad / inference / anomaly mode, flush-denormal, cudnn / tf32 / opt_einsum flags, numpy error state and error "
+    "callback, warnings filters, os.environ, cwd, recursion limit, sys.stdout, scalar module-level globals and class attributes of the "
+    "package; print options are not listed (they do not reach samples, statistics or parameters). A change of the warnings filters or "
+    "of os.environ is blamed on the library only if qucumber code itself called the writer (torch's lazy imports add filters and "
+    "variables on their own). The harness runs with one thread, so a leaked thread count of 1 is visible statically only",
+    "translator, process-wide settings: a write is accepted only if the SAME function restores it on every path (try/finally with a "
+    "saved value, a with-block of a restoring context manager, except BaseException: restore; raise, __enter__/__exit__ pair); a "
+    "set / restore pair split over helper functions, or a library function that changes such a setting on purpose, is an expected "
+    "false alarm (fail closed). Writes at module top level (import time) are recorded on the module's <toplevel> node, which no "
+    "public operation reaches: after the import the setting is the same for every run",
+    "faults are raised only inside callables supplied by the harness or by invalid arguments; faults injected into the library's own "
+    "code (out of memory, a signal between two arbitrary bytecodes) are not generated",
     "expected false alarms (by design, fail closed): any time.* / datetime.* outside callbacks/timer.py (e.g. a timestamp in Logger "
     "output), os.environ reads, iteration over a set, a module outside the whitelist, or a construct the translator does not know "
     "break the proof and are reported as VIOLATION ... no-failing-input-found unless the dynamic part exhibits irreproducibility",
@@ -385,15 +413,16 @@ def _package_globals(raw=False):
                                     if mod is not None and (name == "qucumber" or name.startswith("qucumber."))])
         _STATE["pkg_modules"] = cache
     for name, mod in cache[1]:
+        out[name + "::<loaded>"] = (mod, None, True) if raw else "True"
         for k, v in list(vars(mod).items()):
             if k.startswith("__"):
                 continue
             if _scalar_like(v):
-                out[name + "." + k] = (mod, k, v) if raw else repr(v)
+                out[name + "::" + k] = (mod, k, v) if raw else repr(v)
             elif isinstance(v, type) and getattr(v, "__module__", None) == name:
                 for ck, cv in list(vars(v).items()):
                     if not ck.startswith("__") and _scalar_like(cv):
-                        out["%s.%s.%s" % (name, k, ck)] = (v, ck, cv) if raw else repr(cv)
+                        out["%s::%s.%s" % (name, k, ck)] = (v, ck, cv) if raw else repr(cv)
     return out
 
 
@@ -442,8 +471,12 @@ def proc_diff(before, after):
             continue
         if k == "qucumber.globals":
             for g in before[k]:
-                if g in after[k] and before[k][g] != after[k][g]:     # modules imported lazily meanwhile are not a change
+                if g in after[k] and before[k][g] != after[k][g]:
                     d["qucumber global " + g] = [before[k][g], after[k][g]]
+            for g in after[k]:
+                # a new global / class attribute of a module that was already loaded (modules imported lazily meanwhile are no change)
+                if g not in before[k] and g.split("::")[0] + "::<loaded>" in before[k]:
+                    d["qucumber global " + g] = ["<absent>", after[k][g]]
         elif k == "os.environ":
             d[k] = ["<digest %s>" % before[k], "<digest %s>" % after[k]]
         elif k == "warnings.filters":
@@ -466,7 +499,13 @@ def proc_baseline():
     """the settings the harness process starts every case from (taken once, before the first case)."""
     import warnings
     if _STATE.get("proc_base") is None:
-        import torch, numpy as np
+        import torch, numpy as np, importlib
+        for sub in ("", ".nn_states", ".rbm", ".callbacks", ".observables", ".utils", ".utils.training_statistics", ".utils.unitaries",
+                    ".utils.cplx", ".utils.data", ".utils.gradients_utils"):
+            try:
+                importlib.import_module("qucumber" + sub)       # the package's own module-level globals belong to the baseline
+            except Exception:
+                pass
         _STATE["proc_base"] = {"snap": proc_snapshot(), "filters": list(warnings.filters), "environ": dict(os.environ),
                                "errcall": np.geterrcall(), "dtype": torch.get_default_dtype(), "stdout": sys.stdout,
                                "globals_raw": _package_globals(raw=True)}
@@ -532,8 +571,15 @@ def proc_restore():
     def pkg_globals():
         cur = _package_globals()
         for g, (owner, attr, val) in base["globals_raw"].items():
-            if g in cur and cur[g] != repr(val):
+            if attr is not None and g in cur and cur[g] != repr(val):
                 setattr(owner, attr, val)
+        for g, (owner, attr, val) in _package_globals(raw=True).items():
+            known_module = g.split("::")[0] + "::<loaded>" in base["globals_raw"]
+            if attr is not None and g not in base["globals_raw"] and known_module and isinstance(owner, type):
+                try:
+                    delattr(owner, attr)          # a class attribute that did not exist at the baseline
+                except Exception:
+                    pass
     attempt(pkg_globals)
     return True
 
@@ -1426,7 +1472,7 @@ def predicted_atoms(model, names):
 
 def history_desc(h):
     return {"kind": h["kind"], "nv": h["nv"], "nh": h["nh"], "seed": h["seed"],
-            "ops": [o["op"] + (":" + o["what"] if "what" in o else "") for o in h["ops"]]}
+            "ops": [o["op"] + (":" + o["what"] if "what" in o else "") + ("@" + o["where"] if "where" in o else "") for o in h["ops"]]}
 
 
 def first_diff(a, b):
@@ -1442,7 +1488,7 @@ def op_label(h, idx):
     if idx == 0:
         return "construct"
     o = h["ops"][idx - 1]
-    return "%d:%s%s" % (idx - 1, o["op"], (":" + o["what"]) if "what" in o else "")
+    return "%d:%s%s" % (idx - 1, o["op"], (":" + o["what"]) if "what" in o else ("@" + o["where"]) if "where" in o else "")
 
 
 def check_history(ctx, h, subprocess_too=False, count=True, other_seed=True):
@@ -1499,6 +1545,9 @@ def check_history(ctx, h, subprocess_too=False, count=True, other_seed=True):
     for (lab_out) in [x for x in a.outputs if isinstance(x, list) and len(x) > 3 and x[1] == "FAULT"]:
         ctx.count("fault_outcome:" + str(lab_out[3]))
     for (idx, exc, msg) in a.raised[:3]:
+        if 0 <= idx - 2 < len(h["ops"]) and h["ops"][idx - 2]["op"] == "fault":
+            ctx.count("operation_raised_on_invalid_argument")       # scripted: bad_input faults (an output like any other)
+            continue
         poked = any(o["op"] == "poke" for o in h["ops"][:max(idx - 2, 0)])
         # without a poke (degenerate parameter written by the harness) this never happens on the unchanged tree
         ctx.count("operation_raised_after_poke" if poked else "operation_raised")
@@ -1745,6 +1794,8 @@ def weights_for(viol):
     for v in viol[:20]:
         for o in boost.get(v.get("class"), []):
             w[o] = w.get(o, 1.0) * 1.5
+    if any("process-wide setting" in str(v.get("where")) for v in viol):
+        w["fault"] = w.get("fault", 1.0) * 4          # a setting that is not restored on every path: look for the path
     return w
 
 
